@@ -418,7 +418,7 @@ def new_parents_see_original_ports(repo: Repo, R, rule: str):
         params = {a.arg for a in fi.node.args.args}
         for c in au.calls_in(fi.node):
             callee = repo.resolve_call(c, fi)
-            if callee is not fio or not c.args:
+            if not (callee is fio or (callee is None and (dotted(c.func) or "") == "io")) or not c.args:
                 continue
             root = shared.prov(fi.node, c.args[0])
             made_here = isinstance(root, ast.Call)
@@ -435,7 +435,8 @@ def new_parents_see_original_ports(repo: Repo, R, rule: str):
     for fi in repo.funcs_in(F_GENERATORS):
         for c in au.calls_in(fi.node):
             callee = repo.resolve_call(c, fi)
-            if isinstance(callee, FuncInfo) and callee.qual in stable and c.args:
+            cname = callee.qual if isinstance(callee, FuncInfo) else (dotted(c.func) or "").split(".")[-1]
+            if cname in stable and c.args:
                 n += 1
                 R.ok(rule, key_of(fi, f"original-ports-of-{ast.unparse(c.args[0])}"), fi.at(c), f"{fi.name} reads `{ast.unparse(c)}`: the unit's original ports, elaborated or not")
     if n < 2:
